@@ -16,7 +16,7 @@ for p in props:
             "evidence_file": "evidence/%s.json" % pid,
             "replay_cmd_template": "./check %s --replay {path}" % pid,
             "engine": "pyvc",
-            "level_claimed": {"category": "proof", "text": c['text'], "design_ref": c.get('design_ref', 'DESIGN.md section 5 ' + pid)},
+            "level_claimed": {"category": c.get("category", "proof"), "text": c['text'], "design_ref": c.get('design_ref', 'DESIGN.md section 5 ' + pid)},
             "level_note": c['note'],
             "technique": c.get('technique', 'contract-based deductive verification: VCs generated from the real Python source (ast), discharged by z3/cvc5'),
         })
